@@ -14,6 +14,16 @@ MIB = 1024 * 1024
 KIB = 1024
 STUCK_CLASSES = {"control-len126", "control-len127", "control-nofin", "reserved-opcode", "nonminimal-len",
                  "continuation-without-start", "start-inside-fragments", "close-len1", "close-bad-reason", "message-just-beyond-max"}
+
+
+def setup():
+    # optional thorough-tier libFuzzer targets (clang); a compile failure only skips that sub-run
+    try:
+        vf.build("c18_wsfuzz", "fuzz")
+    except vf.HarnessFailure as e:
+        print("[setup] optional c18_wsfuzz.fuzz not built: %s" % str(e)[:300])
+
+
 RACE_KINDS = ["server:peer-close", "server:app-sendClose", "client:peer-close", "client:app-sendClose", "client:app-disconnect"]
 
 
@@ -466,6 +476,52 @@ def judge_race(ctx, r, flavor):
 
 # ------------------------------------------------------------------------------------------------
 
+# ------------------------------------------------------------------------------------------------
+# optional libFuzzer runs (thorough)
+
+def fuzz_run(ctx, binary, target, runs, corp):
+    import re
+    cdir = os.path.join(ctx.tmp, "fz-" + target)
+    os.makedirs(cdir, exist_ok=True)
+    seeds = []
+    for fid, f in corp["frame_specs"][:150]:
+        if len(f.payload) <= 300:
+            seeds.append(g.encode(f))
+    for fid, hclass, note, b in corp["frame_hostile"][:120]:
+        seeds.append(b)
+    if target == "server":
+        seeds = [bytes([i % 251]) + s.wire for i, s in enumerate(corp["sv"][:150]) if len(s.wire) <= 2000] + \
+                [bytes([7]) + s.wire[:3000] for s in corp["sh"]]
+    for i, b in enumerate(seeds):
+        with open(os.path.join(cdir, "seed%04d" % i), "wb") as fh:
+            fh.write(b)
+    rr = vf.run_harness(binary, ["-runs=%d" % runs, "-max_len=4096", "-seed=%d" % ctx.seed, "-rss_limit_mb=8000", "-timeout=60", "-detect_leaks=0",
+                                 "-print_final_stats=1", "-artifact_prefix=" + cdir + "/art-", cdir],
+                        timeout=3000, env_extra={"C18_FUZZ_TARGET": target}, parse_stdout=False)
+    return rr
+
+
+def fuzz_judge(ctx, rr, target):
+    import re
+    ctx.ingest(rr, where="(libFuzzer %s)" % target)
+    m = re.search(r"stat::number_of_executed_units:\s*(\d+)", rr.err) or re.search(r"Done (\d+) runs", rr.err)
+    n = int(m.group(1)) if m else 0
+    ctx.obs("fuzz:%s:executions" % target, n)
+    ctx.case(sig="fuzz|" + target, n=n)
+    if "C18-FUZZ-KNOWN len-wrap" in rr.err:
+        ctx.violation("C18:%s:len-2^64-k:exception" % target, "libFuzzer (%s target): std::length_error from a 64-bit length in the wrap range (counted, run continued)" % target,
+                      dict(target=target, seed=ctx.seed))
+    for line in rr.err.splitlines():
+        if line.startswith("C18-FUZZ-VIOLATION"):
+            what = line.split()[1]
+            ctx.violation("C18:fuzz:" + what, "libFuzzer (%s target): %s" % (target, line[:300]), dict(target=target, seed=ctx.seed, stderr=rr.err[-2500:]))
+    if rr.timed_out:
+        ctx.inconcl("libFuzzer %s target: process watchdog fired after %d executions" % (target, n))
+    elif rr.rc != 0 and "C18-FUZZ-VIOLATION" not in rr.err and not rr.san_reports:
+        ctx.violation("C18:fuzz:%s:process-died" % target, "libFuzzer (%s target) ended with rc=%s: %s" % (target, rr.rc, rr.err[-400:]), dict(target=target, seed=ctx.seed))
+    return rr
+
+
 def _interleave(*lists):
     out = []
     for l in lists:
@@ -570,13 +626,27 @@ def run(ctx):
                 ctx, B[fl], ["--mode", "closerace", "--seed", ctx.seed], i * per, per, timeout=900, tag="race%d" % i,
                 crash_key=lambda rr, k: ("C18:closerace:%s:process-crash" % RACE_KINDS[k % 5], "close-race harness process died (rc=%s) in scenario %d (%s): %r" % (rr.rc, k, RACE_KINDS[k % 5], rr.err[-300:])))))
 
+    fuzz_jobs = []
+    if thorough:
+        try:
+            fz = vf.build("c18_wsfuzz", "fuzz")
+            fuzz_jobs = [lambda: ("fuzz", "frame", "fuzz", fuzz_run(ctx, fz, "frame", 20000000, corp)),
+                         lambda: ("fuzz", "server", "fuzz", fuzz_run(ctx, fz, "server", 1500000, corp))]
+        except vf.HarnessFailure as e:
+            ctx.extra.setdefault("skipped", []).append("libFuzzer targets: optional clang build failed: %s" % str(e)[-300:])
+
+    # ---- peers that vanish in the middle of a frame (server keeps no bytes of dead sessions)
+    ab_out = os.path.join(ctx.tmp, "abandon.jsonl")
+    fuzz_jobs.append(lambda: ("abandon", None, "plain", vf.run_harness(
+        B["plain"], ["--mode", "abandon", "--conns", 120 if thorough else 40, "--out", ab_out], timeout=600, out_file=ab_out)))
+
     jobs = [lambda j=j: ("frame", j[0], j[1], j[2]()) for j in frame_jobs]
     jobs += [lambda sh=sh: ("shard", None, sh.flavor, run_shard(ctx, B[sh.flavor], sh)) for sh in shards]
     jobs += [lambda j=j: ("race", None, j[0], j[1]()) for j in race_jobs]
     # long jobs first
     import time as _t
     _t0 = _t.time()
-    results = vf.run_many(ctx, jobs[len(frame_jobs):] + jobs[:len(frame_jobs)])
+    results = vf.run_many(ctx, fuzz_jobs + jobs[len(frame_jobs):] + jobs[:len(frame_jobs)])
     if os.environ.get("C18_TIMING"):
         print("[c18-timing] phase1 %.1fs" % (_t.time() - _t0), flush=True)
         for kind, sub, fl, res in results:
@@ -584,10 +654,31 @@ def run(ctx):
                 print("[c18-timing] frame-%s-%s %.1fs" % (sub, fl, res.wall), flush=True)
             elif kind == "race":
                 print("[c18-timing] race-%s %.1fs" % (fl, sum(r.wall for r in res)), flush=True)
+            elif kind in ("fuzz", "abandon"):
+                print("[c18-timing] %s-%s %.1fs" % (kind, sub, res.wall), flush=True)
 
     judge = Judge(ctx)
     done_shards = []
     for kind, sub, fl, res in results:
+        if kind == "fuzz":
+            fuzz_judge(ctx, res, sub)
+            continue
+        if kind == "abandon":
+            ctx.ingest(res, where="(abandon, plain)")
+            rec = next((r for r in res.records if r.get("t") == "abandon"), None)
+            if rec is None or res.rc != 0:
+                ctx.inconcl("abandon mode: rc=%s timed_out=%s %s" % (res.rc, res.timed_out, res.err[-300:]))
+                continue
+            left = rec["conns"] * rec["partial"]
+            bound = max(256 * KIB, left // 4)
+            ctx.case(sig="abandon|%d" % rec["conns"], n=rec["conns"])
+            ctx.obs_max("abandon:live_bytes_retained_after_all_peers_left", max(0, rec["live_delta"]))
+            if rec["conns"] >= 10 and rec["live_delta"] > bound:
+                ctx.violation("C18:server:abandoned-connection:buffer-retained",
+                              "%d peers each sent the first %d bytes of a %d-byte frame and dropped the TCP connection; %.0f s after the last one left %d bytes are still allocated "
+                              "(bound max(256 KiB, a quarter of the %d bytes they sent) = %d): the per-session receive buffers of dead sessions are never released"
+                              % (rec["conns"], rec["partial"], rec["declared"], 4, rec["live_delta"], left, bound), dict(record=rec, seed=ctx.seed, flavor="plain"))
+            continue
         if kind == "frame":
             ctx.ingest(res, where="(frame, %s)" % fl)
             if res.timed_out or res.rc not in (0,):
@@ -737,7 +828,8 @@ def run(ctx):
                     "streams_with_ping_in_frag", "streams_with_utf8_seq_split_across_fragments", "pings_expected_to_be_answered",
                     "client-socket:recv_calls_shortened_by_shim", "client-socket:stream_joined_with_101",
                     *["race:%s:scenarios_with_sends_attempted_after_the_close_was_initiated" % k for k in RACE_KINDS],
-                    "race:server:peer-close:close_frame_seen", "race:server:app-sendClose:close_frame_seen", "race:client:peer-close:close_frame_seen")
+                    "race:server:peer-close:close_frame_seen", "race:server:app-sendClose:close_frame_seen", "race:client:peer-close:close_frame_seen",
+                    "abandon:connections_dropped_mid_frame")
     ctx.extra["corpora"] = {k: len(v) for k, v in corp.items()}
     ctx.extra["shards"] = len(shards)
 
